@@ -95,6 +95,11 @@ func runC11(c *Ctx) {
 			if o, ok := f.Object().(*types.Func); ok && sameFunc(o, insObj) {
 				return true
 			}
+			for _, ci := range callInstrs(f) {
+				if o := calleeObj(ci); o != nil && o.Name() == "WriteHeadBlockHash" && o.Pkg() != nil && o.Pkg().Path() == full("core/rawdb") {
+					return true
+				}
+			}
 		}
 		return false
 	}
@@ -216,9 +221,9 @@ func runC11(c *Ctx) {
 	c.Rule("C11.H2", "CONFINED", "the writers of the persistent canonical/head markers and the functions that move the in-memory head have tabled callers only")
 	c.Min(12)
 	allowed := map[string]map[string]bool{
-		"WriteCanonicalHash":  {"(core.HeaderChain).WriteHeader": true, "(core.BlockChain).updateHeadBlock": true, "(core.Genesis).Commit": true},
-		"WriteHeadBlockHash":  {"(core.BlockChain).updateHeadBlock": true, "(core.Genesis).Commit": true, "(core.BlockChain).SetHead": true},
-		"WriteHeadHeaderHash": {"(core.HeaderChain).WriteHeader": true, "(core.HeaderChain).SetHead": true, "(core.Genesis).Commit": true, "(core.HeaderChain).InsertHeaderChain": true, "(core.HeaderChain).SetCurrentHeader": true},
+		"WriteCanonicalHash":  {"(core.HeaderChain).WriteHeader": true, "(core.BlockChain).updateHeadBlock": true, "(core.Genesis).Commit": true, "core.writeHeadBlock": true},
+		"WriteHeadBlockHash":  {"(core.BlockChain).updateHeadBlock": true, "(core.Genesis).Commit": true, "(core.BlockChain).SetHead": true, "core.writeHeadBlock": true},
+		"WriteHeadHeaderHash": {"core.writeHeadBlock": true, "(core.HeaderChain).WriteHeader": true, "(core.HeaderChain).SetHead": true, "(core.Genesis).Commit": true, "(core.HeaderChain).InsertHeaderChain": true, "(core.HeaderChain).SetCurrentHeader": true},
 		"DeleteCanonicalHash": {"(core.HeaderChain).SetHead": true, "(core.BlockChain).SetHead": true},
 	}
 	for _, fn := range w.AllFuncs() {
@@ -257,6 +262,13 @@ func runC11(c *Ctx) {
 	}
 	confineCallers(insObj, map[string]bool{"(core.BlockChain).WriteBlockWithState": true, "(core.BlockChain).reorg": true, "(core.BlockChain).ResetWithGenesisBlock": true})
 	confineCallers(uhb.Object().(*types.Func), map[string]bool{"(core.BlockChain).insert": true, "(core.BlockChain).InsertReceiptChain": true})
+	// helpers of the atomic head switch (absent on a tree that writes the markers differently: H5 judges that)
+	if f := w.FnOpt("core", "", "writeHeadBlock"); f != nil {
+		confineCallers(f.Object().(*types.Func), map[string]bool{"(core.BlockChain).insert": true, "(core.BlockChain).reorg": true})
+	}
+	if f := w.FnOpt("core", "BlockChain", "setHeadBlock"); f != nil {
+		confineCallers(f.Object().(*types.Func), map[string]bool{"(core.BlockChain).insert": true, "(core.BlockChain).reorg": true})
+	}
 	confineCallers(wbs.Object().(*types.Func), map[string]bool{"(core.BlockChain).insertChain": true, "(miner.worker).postSeal": true})
 
 	// ------------------------------------------------------------ H3
@@ -382,6 +394,11 @@ func runC11(c *Ctx) {
 		c.Check(fname(pub)+"#contiguity-before-import", ci.Pos(), okL, ifelse(okL, "insertChain is reached only after the loop that checks numbering and parent links", "blocks are imported without the contiguity check of the offered segment"))
 	}
 
+	// ------------------------------------------------------------ H5
+	c.Rule("C11.H5", "ATOMIC-GROUP", "on the import path (everything insert and reorg reach inside package core) the persistent head markers, number→hash entries and transaction lookups are written to a batch, never straight to the database; insert and reorg each flush exactly one such batch, and flush it before the in-memory head moves: a kill between separate writes leaves an index that is not parent-linked up to the head, or lookups that name dropped blocks")
+	c.Min(6)
+	c11H5(c, w)
+
 	// ------------------------------------------------------------ H4
 	c.Rule("C11.H4", "EXIT", "insertSidechain writes side-chain blocks only after verifyAllSideChainBlocks returned nil; verifyAllSideChainBlocks returns nil only after VerifySideChainHeader, Process and ValidateState succeeded for every block")
 	c.Min(3)
@@ -495,6 +512,141 @@ func sortedIntKeys(m map[int]bool) []int {
 }
 
 // loopBefore: a sits in a loop all of whose exits lead to b's block before b.
+func c11H5(c *Ctx, w *World) {
+	group := map[string]bool{"WriteHeadHeaderHash": true, "WriteCanonicalHash": true, "WriteHeadBlockHash": true, "WriteTxLookupEntries": true, "DeleteTxLookupEntry": true}
+	isGroup := func(ci ssa.CallInstruction) bool {
+		o := calleeObj(ci)
+		return o != nil && group[o.Name()] && o.Pkg() != nil && o.Pkg().Path() == full("core/rawdb")
+	}
+	isNewBatch := func(v ssa.Value) bool {
+		cc, ok := v.(*ssa.Call)
+		return ok && calleeObj(cc) != nil && calleeObj(cc).Name() == "NewBatch"
+	}
+	isBatchType := func(t types.Type) bool {
+		return strings.HasSuffix(types.TypeString(t, nil), "youdb.Batch")
+	}
+	ins := w.Fn("core", "BlockChain", "insert")
+	reorg := w.Fn("core", "BlockChain", "reorg")
+	scope := reachableStatic([]*ssa.Function{ins, reorg}, func(f *ssa.Function) bool { return f.Pkg != nil && f.Pkg.Pkg.Path() == full("core") })
+	var fns []*ssa.Function
+	for f := range scope {
+		fns = append(fns, f)
+	}
+	sort.Slice(fns, func(i, j int) bool { return fname(fns[i]) < fname(fns[j]) })
+	// batchParams: functions whose group writes go to a parameter of batch type
+	batchParam := map[*ssa.Function]int{}
+	nWrites := 0
+	for _, f := range fns {
+		for _, ci := range callInstrs(f) {
+			if !isGroup(ci) {
+				continue
+			}
+			nWrites++
+			c.sites++
+			c.sawFunc(fname(f))
+			wr := stripConv(callArgs(ci)[0])
+			key := fmt.Sprintf("%s#%s@%s-goes-to-batch", fname(f), calleeObj(ci).Name(), siteOrdinal(f, ci, ""))
+			ok, why := false, "the writer is neither a batch created here nor a batch parameter"
+			if derivesFrom(wr, isNewBatch) {
+				ok, why = true, "written to a batch created in this function"
+			} else {
+				for i, p := range f.Params {
+					if ssa.Value(p) == wr && isBatchType(p.Type()) {
+						ok, why = true, "written to the caller's batch"
+						batchParam[f] = i
+					}
+				}
+			}
+			c.Check(key, ci.Pos(), ok, ifelse(ok, why, "this marker of the head-switch group is written straight to the database ("+why+"): it becomes durable on its own, and a kill before the rest of the group is written leaves head, number→hash index and lookups disagreeing"))
+		}
+	}
+	if nWrites < 4 {
+		c.Undecided("core#head-switch-group-writes", 0, fmt.Sprintf("only %d writes of the head-switch group found on the import path", nWrites))
+	}
+	// insert and reorg: one batch each carries the group, flushed before the in-memory head moves
+	currentBlock := w.Field("core", "BlockChain", "currentBlock")
+	movesHead := func(f *ssa.Function) bool {
+		for _, in := range fieldReads(f, currentBlock) {
+			_ = in
+		}
+		for _, ci := range callInstrs(f) {
+			if o := calleeObj(ci); o != nil && o.Name() == "Store" {
+				if fa, ok := stripConv(callRecv(ci)).(*ssa.FieldAddr); ok && fieldOfAddr(fa) == currentBlock {
+					return true
+				}
+			}
+		}
+		return false
+	}
+	for _, f := range []*ssa.Function{ins, reorg} {
+		c.sawFunc(fname(f))
+		batches := map[ssa.Value]bool{}
+		for _, ci := range callInstrs(f) {
+			var wr ssa.Value
+			if isGroup(ci) {
+				wr = callArgs(ci)[0]
+			} else if callee := staticCallee(ci); callee != nil {
+				if i, has := batchParam[callee]; has {
+					a := callArgs(ci)
+					if callee.Signature.Recv() != nil {
+						i-- // callArgs excludes the receiver
+					}
+					if i >= 0 && i < len(a) {
+						wr = a[i]
+					}
+				}
+			}
+			if wr == nil {
+				continue
+			}
+			backward(wr, func(v ssa.Value) bool {
+				if isNewBatch(v) {
+					batches[v] = true
+					return false
+				}
+				return true
+			})
+		}
+		c.sites++
+		c.Check(fname(f)+"#one-batch-carries-the-group", f.Pos(), len(batches) == 1, ifelse(len(batches) == 1, "all group writes of this function go to one batch", fmt.Sprintf("the group writes of this function go to %d batches: they are not atomic", len(batches))))
+		if len(batches) != 1 {
+			continue
+		}
+		var batch ssa.Value
+		for b := range batches {
+			batch = b
+		}
+		var flush ssa.CallInstruction
+		for _, ci := range callInstrs(f) {
+			if o := calleeObj(ci); o != nil && o.Name() == "Write" && samePath(stripConv(callRecv(ci)), batch) {
+				flush = ci
+			}
+		}
+		// the in-memory head move: a Store on currentBlock here or in a callee
+		nMoves, bad := 0, 0
+		for _, ci := range callInstrs(f) {
+			mv := false
+			if o := calleeObj(ci); o != nil && o.Name() == "Store" {
+				if fa, ok := stripConv(callRecv(ci)).(*ssa.FieldAddr); ok && fieldOfAddr(fa) == currentBlock {
+					mv = true
+				}
+			}
+			if callee := staticCallee(ci); callee != nil && callee.Pkg != nil && callee.Pkg.Pkg.Path() == full("core") && movesHead(callee) {
+				mv = true
+			}
+			if !mv {
+				continue
+			}
+			nMoves++
+			if flush == nil || !(instrDominates(flush, ci) || loopBefore(flush, ci)) {
+				bad++
+			}
+		}
+		c.sites++
+		c.Check(fname(f)+"#flushed-before-memory-head-moves", f.Pos(), flush != nil && nMoves > 0 && bad == 0, ifelse(flush != nil && nMoves > 0 && bad == 0, "batch.Write() precedes every in-memory head move", "the in-memory head can move before (or without) the batch being flushed: readers see a head the database does not have"))
+	}
+}
+
 func loopBefore(a, b ssa.Instruction) bool {
 	for _, blk := range a.Block().Parent().Blocks {
 		if isLoopHeader(blk) && naturalLoop(blk)[a.Block()] && !naturalLoop(blk)[b.Block()] && blk.Dominates(b.Block()) {
